@@ -343,6 +343,14 @@ class _Fold(ast.NodeTransformer):
                 and all(isinstance(a_, (ast.Name, ast.Constant)) or (isinstance(a_, ast.Attribute) and _simple(a_)) for a_ in n.args):
             m_ = {p_.arg: a_ for p_, a_ in zip(n.func.args.args, n.args)}
             return ast.copy_location(_Sub(m_).visit(copy.deepcopy(n.func.body)), n)
+        # N32: operator.itemgetter(i[, j ...]) with constant indices is the lambda that picks those items
+        fn_ = n.func
+        if ((isinstance(fn_, ast.Name) and fn_.id == 'itemgetter') or (isinstance(fn_, ast.Attribute) and fn_.attr == 'itemgetter' and isinstance(fn_.value, ast.Name) and fn_.value.id == 'operator')) \
+                and n.args and not n.keywords and all(isinstance(a_, ast.Constant) and isinstance(a_.value, (int, str)) for a_ in n.args):
+            items = [ast.Subscript(value=ast.Name(id='item', ctx=ast.Load()), slice=ast.Constant(value=a_.value), ctx=ast.Load()) for a_ in n.args]
+            body_ = items[0] if len(items) == 1 else ast.Tuple(elts=items, ctx=ast.Load())
+            lam = ast.Lambda(args=ast.arguments(posonlyargs=[], args=[ast.arg(arg='item')], kwonlyargs=[], kw_defaults=[], defaults=[]), body=body_)
+            return ast.fix_missing_locations(ast.copy_location(lam, n))
         if isinstance(n.func, ast.Name) and n.func.id == 'getattr' and len(n.args) == 2 and not n.keywords \
                 and isinstance(n.args[1], ast.Constant) and isinstance(n.args[1].value, str) and n.args[1].value.isidentifier():
             return ast.copy_location(ast.Attribute(value=n.args[0], attr=n.args[1].value, ctx=ast.Load()), n)
@@ -1051,6 +1059,60 @@ def _sort_in_place(fn: ast.AST, keep: set[str] | None = None) -> bool:
     return done
 
 
+def _sink_local(fn: ast.AST, keep: set[str] | None = None) -> bool:
+    """N31: a new local v that is built up by plain assignments and finally copied into a field (`self.f = v`, the only
+    read of v), with nothing in between that can observe the field (no mention of it, no call that receives self): v is the
+    field."""
+    if not isinstance(fn, (ast.FunctionDef, ast.AsyncFunctionDef)):
+        return False
+    done = False
+    for _o, blk in list(_blocks(fn)):
+        for k in range(len(blk) - 1, 0, -1):
+            st = blk[k]
+            if not (isinstance(st, ast.Assign) and len(st.targets) == 1 and isinstance(st.value, ast.Name) and isinstance(st.targets[0], ast.Attribute)
+                    and isinstance(st.targets[0].value, ast.Name) and st.targets[0].value.id == 'self'):
+                continue
+            v = st.value.id
+            if v in (keep or ()):
+                continue
+            occ = [x for x in ast.walk(fn) if isinstance(x, ast.Name) and x.id == v]
+            loads = [x for x in occ if isinstance(x.ctx, ast.Load)]
+            if len(loads) != 1 or loads[0] is not st.value:
+                continue
+            first = next((i for i, y in enumerate(blk[:k]) if any(x is z for z in ast.walk(y) for x in occ)), None)
+            if first is None:
+                continue
+            inside = {id(z) for y in blk[first:k] for z in ast.walk(y)}
+            if not all(id(x) in inside or x is st.value for x in occ):
+                continue
+            # every store of v is a plain `v = e`
+            par = {}
+            for y in blk[first:k]:
+                for z in ast.walk(y):
+                    for c in ast.iter_child_nodes(z):
+                        par[id(c)] = z
+            if not all(isinstance(par.get(id(x)), ast.Assign) and len(par[id(x)].targets) == 1 and par[id(x)].targets[0] is x for x in occ if x is not st.value):
+                continue
+            field = st.targets[0].attr
+            between = blk[first:k]
+            if any(isinstance(z, ast.Attribute) and z.attr == field for y in between for z in ast.walk(y)):
+                continue
+            if any(isinstance(z, ast.Call) and any(isinstance(w, ast.Name) and w.id == 'self' for w in ast.walk(z)) for y in between for z in ast.walk(y)):
+                continue
+            if any(isinstance(z, (ast.Return, ast.Raise, ast.Yield, ast.YieldFrom, ast.Await)) for y in between for z in ast.walk(y)):
+                continue
+            for x in occ:
+                if x is st.value:
+                    continue
+                p_ = par[id(x)]
+                p_.targets[0] = ast.copy_location(ast.Attribute(value=ast.Name(id='self', ctx=ast.Load()), attr=field, ctx=ast.Store()), x)
+            del blk[k]
+            ast.fix_missing_locations(fn)
+            done = True
+            break
+    return done
+
+
 def _default_rebind(fn: ast.AST, keep: set[str] | None = None) -> bool:
     """N25: `v = a; if v is None: v = b` with `a` a plain name / attribute and v a new local is `v = a if a is not None else b`
     (the default-value idiom written as a rebinding)."""
@@ -1177,6 +1239,7 @@ def _fold(fn: ast.AST, keep: set[str] | None = None) -> None:
                 tgt = ast.copy_location(ast.Attribute(value=o, attr=key.value, ctx=ast.Store()), st.value)
                 blk[k] = ast.copy_location(ast.Assign(targets=[tgt], value=v, lineno=st.lineno), st)
     _collapse_rmw(fn, keep)
+    _sink_local(fn, keep)
     _coalesce_branch_copy(fn, keep)
     _rows_in_place(fn, keep)
 
